@@ -82,6 +82,11 @@ check("C17", "differential property test: transpiled Python script vs compiled b
       "Range loops, default/keyword parameters and if! statements are left out because of recorded known findings (pinned replays); interpolation and if expressions are left out as well and are NOT analysed by this check; a transpiler panic ('not implemented') or diagnostics count as declined.",
       "DESIGN.md §3 C17")
 
+check("C22", "metamorphic property test: one effectful operation at a generated position in function / procedure / top-level variants of the same body",
+      "An effect (procedure call, print!, procedural method, read of an outer mutable variable) is placed at a generated position (binding, argument, nested argument, keyword argument, if arm, list/tuple element, record field, lambda body, block-valued binding) under 0-3 pure wrappers; the function variant must be rejected with a HasEffect diagnostic, the procedure and top-level variants accepted without error.",
+      "Templates are fixed shapes combined by the generator (10 positions x 5 effects x wrapper sequences x prefixes); default arguments as effect positions are not generated.",
+      "DESIGN.md §3 C22")
+
 NOT_APPLICABLE = {}
 
 def main():
